@@ -38,6 +38,10 @@ def edit_distance(s, t, int maxdiff=-1):
 	# Return early if string lengths are too different
 	if e != -1 and abs(m - n) > e:
 		return abs(m - n)
+	# A band wider than the longer string changes nothing (the distance cannot be larger),
+	# but j + e + 1 below would overflow for values close to the largest int
+	if e > max(m, n):
+		e = max(m, n)
 
 	s_bytes = s.encode() if isinstance(s, unicode) else s
 	t_bytes = t.encode() if isinstance(t, unicode) else t
